@@ -98,7 +98,9 @@ def run(ck, facts):
             ls = lits_compared_with(n["c"], "seg")
             if ls and C.panic_macro_of(n["t"]):
                 panicking |= set(ls)
-        if n.get("k") == "match" and any(x.get("k") == "local" and x.get("n") in ("seg", "segment", "name") for x in C.walk(n["s"])):
+        # the classifying match: over the segment's text -- recognised by its scrutinee's name or by what it classifies (two or more attribute names among its patterns)
+        if n.get("k") == "match" and (any(x.get("k") == "local" and x.get("n") in ("seg", "segment", "name") for x in C.walk(n["s"]))
+                                      or len(set(C.pattern_str_lits({"k": "match", "s": {}, "arms": n["arms"]})) & accepted) >= 2):
             for arm in n["arms"]:
                 ls = []
 
